@@ -347,4 +347,26 @@ example : (compileOuter strayCirc true 0 none
       [.qubit, .qubit, .qubit, .qubit, .bool, .bool, .bool]).toOption.map (·.callArgs) =
     some [.falseConst, .falseConst, .falseConst] := by decide
 
+/-- degenerate shape: a purely classical circuit (no qubits, bit registers `hi` (2) and `lo` (1)).
+    The hypotheses of the theorems hold (so `outputs_bits_then_qubits` and `bit_arrays_by_register`
+    speak about it: every returned bool array is built from the call's bit outputs `0, 1 | 2`), in
+    both modes; likewise the circuit with nothing at all. -/
+def classicalCirc : Circ :=
+  { qubits := [], bits := [⟨"hi", [0]⟩, ⟨"hi", [1]⟩, ⟨"lo", [0]⟩],
+    qregs := [], cregs := [⟨"hi", 2⟩, ⟨"lo", 1⟩], nSyms := 0 }
+
+example : PytketView classicalCirc := viewOk_sound _ (by decide)
+example : InnerOutsOk classicalCirc [.bool, .bool, .bool] := rfl
+example : loadPytket classicalCirc true none [.bool, .bool, .bool] =
+    .ok (⟨[], .tuple [.array .bool 2, .array .bool 1]⟩,
+         ⟨[.falseConst, .falseConst, .falseConst],
+          [.newArray .bool 2 [.opaque 0, .opaque 1], .newArray .bool 1 [.opaque 2]]⟩) := by decide
+example : loadPytket classicalCirc false none [.bool, .bool, .bool] =
+    .ok (⟨[], .tuple [.scalar .bool, .scalar .bool, .scalar .bool]⟩,
+         ⟨[.falseConst, .falseConst, .falseConst],
+          [.wire (.opaque 0), .wire (.opaque 1), .wire (.opaque 2)]⟩) := by decide
+example : loadPytket ⟨[], [], [], [], 0⟩ true none [] = .ok (⟨[], .none⟩, ⟨[], []⟩) := by decide
+example : parseStub classicalCirc ⟨[], some ⟨[], .tuple [.scalar .bool, .scalar .bool, .scalar .bool]⟩⟩ =
+    .accepted ⟨[], .tuple [.scalar .bool, .scalar .bool, .scalar .bool]⟩ := by decide
+
 end GuppyVerif.Pytket
